@@ -1,6 +1,6 @@
 (* C06 — the property, clause by clause.  Only statements here; every proof is `exact lemma`. *)
 From Coq Require Import List String ZArith Bool Arith.
-From V.C06 Require Import Model Spec Proofs ProofsRoutes.
+From V.C06 Require Import Model Spec Proofs ProofsRoutes Frame RouteThms.
 Import ListNotations.
 
 (* FRAME (any depth, any route): a write — element store by int or string key, append, unset,
@@ -53,6 +53,98 @@ Theorem assign_then_write : forall n st xa xb ca cb a path act m,
   obs_var n (exec st1 (SMut (BVar xa) path act)) xb = obs_var n st1 xb.
 Proof. exact assign_then_write_l. Qed.
 Print Assumptions assign_then_write.
+
+(* ---- every copy route THROUGH THE STATEMENT INTERPRETER `exec`: after the route statement the two
+   names denote equal trees, and any depth-1 write statement ($x[k] = v, $x[] = v, unset($x[k]),
+   sort($x), array_push($x, v), array_pop($x) — `mut_of path act = Some m`) through either name
+   leaves the other name's tree unchanged.  Each precondition record describes the state before the
+   route statement (existing slots, a depth-1 array, distinct addresses); ExamplesRoutes.v inhabits
+   every one of them with a state reached by running setup statements. ---- *)
+
+(* read from an object property  $b = $o->p   (also: $b = $o->method() returning the property) *)
+Theorem prop_read_then_write : forall n st o p b co oa cp ap cb path act m,
+  pre_prop_read st o p b co oa cp ap cb -> mut_of path act = Some m ->
+  let st1 := exec st (SPropRead b o p) in
+  obs_var n st1 b = obs_base n st1 (BProp o p) /\
+  obs_base n (exec st1 (SMut (BVar b) path act)) (BProp o p) = obs_base n st1 (BProp o p) /\
+  obs_var n (exec st1 (SMut (BProp o p) path act)) b = obs_var n st1 b.
+Proof. exact prop_read_then_write_l. Qed.
+Print Assumptions prop_read_then_write.
+
+(* stored into an object property  $o->p = $a *)
+Theorem prop_store_then_write : forall n st o p a co oa cp ca aa path act m,
+  pre_prop_store st o p a co oa cp ca aa -> mut_of path act = Some m ->
+  let st1 := exec st (SPropStore o p a) in
+  obs_base n st1 (BProp o p) = obs_var n st1 a /\
+  obs_var n (exec st1 (SMut (BProp o p) path act)) a = obs_var n st1 a /\
+  obs_base n (exec st1 (SMut (BVar a) path act)) (BProp o p) = obs_base n st1 (BProp o p).
+Proof. exact prop_store_then_write_l. Qed.
+Print Assumptions prop_store_then_write.
+
+(* read from another array  $b = $w[k]   (also: $b = end($w) / reset($w) / current($w)) *)
+Theorem elem_read_then_write : forall n st w k b cw W a cb path act m,
+  pre_elem_read st w k b cw W a cb -> mut_of path act = Some m ->
+  let st1 := exec st (SElemRead b w k) in
+  let elem st := obs n (hp st) (container_get (hp st) (var_val st w) k) in
+  obs_var n st1 b = elem st1 /\
+  elem (exec st1 (SMut (BVar b) path act)) = elem st1 /\
+  obs_var n (exec st1 (SMut (BVar w) (k :: path) act)) b = obs_var n st1 b.
+Proof. exact elem_read_then_write_l. Qed.
+Print Assumptions elem_read_then_write.
+
+(* stored into another array  $w[] = $a  (a list)  and  $w['x'] = $a  (a new string key) *)
+Theorem elem_append_then_write : forall n st w a cw W ca aa path act m,
+  pre_elem_store st w a cw W ca aa ->
+  (forall c, In c (spine (hp st) W) -> cname (cell_at (hp st) c) = NNone) ->
+  mut_of path act = Some m ->
+  let k := KI (Z.of_nat (List.length (spine (hp st) W))) in
+  let st1 := exec st (SElemAppend w a) in
+  let elem st := obs n (hp st) (container_get (hp st) (var_val st w) k) in
+  elem st1 = obs_var n st1 a /\
+  obs_var n (exec st1 (SMut (BVar w) (k :: path) act)) a = obs_var n st1 a /\
+  elem (exec st1 (SMut (BVar a) path act)) = elem st1.
+Proof. exact elem_append_then_write_l. Qed.
+Theorem elem_store_str_then_write : forall n st w a x cw W ca aa path act m,
+  pre_elem_store st w a cw W ca aa ->
+  find_named (hp st) (spine (hp st) W) (NStr x) 0 = None ->
+  mut_of path act = Some m ->
+  let k := KS x in
+  let st1 := exec st (SElemStore w k a) in
+  let elem st := obs n (hp st) (container_get (hp st) (var_val st w) k) in
+  elem st1 = obs_var n st1 a /\
+  obs_var n (exec st1 (SMut (BVar w) (k :: path) act)) a = obs_var n st1 a /\
+  elem (exec st1 (SMut (BVar a) path act)) = elem st1.
+Proof. exact elem_store_str_then_write_l. Qed.
+Print Assumptions elem_append_then_write.
+Print Assumptions elem_store_str_then_write.
+
+(* ---- "Objects are shared by handle, and clone yields an object whose own properties (including
+   array-valued ones) change independently." ---- *)
+
+(* $h = $o copies nothing (no allocation, both variables hold the same object) and a write through
+   $h->p is the write through $o->p *)
+Theorem objects_by_handle : forall n st o h p co ch oa c a path act m,
+  prop_name st o p co oa c a -> vlookup (env st) h = Some ch -> ch < next (hp st) ->
+  ch <> co /\ ch <> oa /\ ch <> c /\ ch <> a /\ ~ In ch (spine (hp st) a) ->
+  co <> a /\ oa <> a /\ c <> a /\ co <> c /\ oa <> c ->
+  mut_of path act = Some m ->
+  let st1 := exec st (SCopy h o) in
+  let st2 := exec st1 (SMut (BProp h p) path act) in
+  next (hp st1) = next (hp st) /\ var_val st1 h = VObj oa /\ var_val st1 o = VObj oa /\
+  obs_base n st2 (BProp o p) = obs_base n st2 (BProp h p).
+Proof. exact objects_by_handle_l. Qed.
+Print Assumptions objects_by_handle.
+
+(* $c = clone $o : for an object with any number of properties (scalar, object or array valued), the
+   array-valued property p of the clone equals the original's and each changes independently *)
+Theorem clone_then_write : forall n st o p c co oa cp ap cc path act m,
+  pre_clone st o p c co oa cp ap cc -> mut_of path act = Some m ->
+  let st1 := exec st (SCloneObj c o) in
+  obs_base n st1 (BProp c p) = obs_base n st1 (BProp o p) /\
+  obs_base n (exec st1 (SMut (BProp c p) path act)) (BProp o p) = obs_base n st1 (BProp o p) /\
+  obs_base n (exec st1 (SMut (BProp o p) path act)) (BProp c p) = obs_base n st1 (BProp c p).
+Proof. exact clone_then_write_l. Qed.
+Print Assumptions clone_then_write.
 
 (* a list literal of scalars is a depth-1 array in the sense of the hypotheses above *)
 Theorem literal_is_flat : forall h vs, (forall v, In v vs -> scalar v = true) ->
